@@ -329,6 +329,10 @@ def verify_function(ex, key, timeout_ms=10000, extra_pre=()):
                     status, be, secs, mt, m = solve(out.st.hyps, z3_bool(goal), axioms, timeout_ms)
                     rep.results.append(ObResult(f"{key}.report_field.{fname}.path{i}", "ensures", status, be, secs,
                                                 spec.report_props, model=mt, meta={"path": i}))
+                for cname_, cfn, cprops in getattr(spec, "report_clauses", []):
+                    goal = cfn(a, got) if ok_shape else False
+                    status, be, secs, mt, m = solve(out.st.hyps, z3_bool(goal), axioms, timeout_ms)
+                    rep.results.append(ObResult(f"{key}.{cname_}.path{i}", "ensures", status, be, secs, cprops, model=mt, meta={"path": i}))
                 continue
             res = normalize(out.val, ret_ty)
             lem = []
